@@ -187,10 +187,10 @@ func (p *Placement) Step(it *Interp, st *StepInfo) {
 			}
 		}
 		// status follows the life-cycle (only for transfers with a tx hash of their own)
-		ctx := it.H.Ctx()
+		// (read through the TransactionStatus query, which is what users are told)
 		// 'refunded' is final, also for a hash shared by several transfers
 		for hsh := range p.refundedHash {
-			if s := it.H.K.GetTxStatus(ctx, hsh).Status; s != mtypes.TX_STATUS_REFUNDED {
+			if s := it.ReportedStatus(hsh); s != mtypes.TX_STATUS_REFUNDED {
 				it.Fail("C04", "refunded-not-final", "%s: status of tx %s.. was REFUNDED and is now %s", ch, hsh[:12], s)
 				return
 			}
@@ -199,7 +199,7 @@ func (p *Placement) Step(it *Interp, st *StepInfo) {
 			if !uniqueHash(e.TxHash) || p.hashUse[e.TxHash] != 1 {
 				continue // status is keyed by tx hash; transfers sharing one share a status by design
 			}
-			s := it.H.K.GetTxStatus(ctx, e.TxHash).Status
+			s := it.ReportedStatus(e.TxHash)
 			place := now[id]
 			ok := false
 			if place == "pool" {
@@ -217,7 +217,7 @@ func (p *Placement) Step(it *Interp, st *StepInfo) {
 			if e == nil || !uniqueHash(e.TxHash) || p.hashUse[e.TxHash] != 1 {
 				continue
 			}
-			s := it.H.K.GetTxStatus(ctx, e.TxHash).Status
+			s := it.ReportedStatus(e.TxHash)
 			if why == "executed" && s != mtypes.TX_STATUS_BATCH_EXECUTED {
 				it.Fail("C04", "status-lifecycle", "%s: transfer %d was executed but its status is %s", ch, id, s)
 				return
@@ -540,7 +540,7 @@ func (c *Refunds) Step(it *Interp, st *StepInfo) {
 		}
 		c.compareBalances(it, st, delta, "cancel")
 		if e.RefundChainId == "hub" && uniqueHash(e.TxHash) {
-			if s := it.H.K.GetTxStatus(it.H.Ctx(), e.TxHash).Status; s != mtypes.TX_STATUS_REFUNDED {
+			if s := it.ReportedStatus(e.TxHash); s != mtypes.TX_STATUS_REFUNDED {
 				it.Fail("C12", "refund-status", "%s: transfer %d cancelled but status is %s", ch, st.CancelID, s)
 			}
 		}
@@ -602,7 +602,7 @@ func (c *Refunds) Step(it *Interp, st *StepInfo) {
 		for _, e := range st.Post.Chains[ch].Pool {
 			postPool[e.Id] = e
 			// the sweep runs in every EndBlocker: an expired transfer that has something to give back is gone now
-			if it.expired(e) && e.RefundChainId != "" && it.refundValue(ch, e).Sign() > 0 {
+			if it.ExpiredByModel(ch, e) && e.RefundChainId != "" && it.refundValue(ch, e).Sign() > 0 {
 				it.Fail("C12", "expired-not-refunded", "%s: transfer %d created at %d is still unbatched at %d although the timeout %s has passed", ch, e.Id, e.CreatedAt, it.Now, it.timeout())
 				return
 			}
@@ -615,7 +615,7 @@ func (c *Refunds) Step(it *Interp, st *StepInfo) {
 				continue
 			}
 			// left the pool in a quiet EndBlock: must be an expiry refund
-			if !it.expired(e) {
+			if !it.ExpiredByModel(ch, e) {
 				it.Fail("C12", "refunded-before-timeout", "%s: transfer %d created at %d refunded at %d, before its timeout %s", ch, e.Id, e.CreatedAt, it.Now, it.timeout())
 				return
 			}
@@ -625,7 +625,7 @@ func (c *Refunds) Step(it *Interp, st *StepInfo) {
 				return
 			}
 			if e.RefundChainId == "hub" && uniqueHash(e.TxHash) {
-				if s := it.H.K.GetTxStatus(it.H.Ctx(), e.TxHash).Status; s != mtypes.TX_STATUS_REFUNDED {
+				if s := it.ReportedStatus(e.TxHash); s != mtypes.TX_STATUS_REFUNDED {
 					it.Fail("C12", "refund-status", "%s: transfer %d expired but status is %s", ch, e.Id, s)
 					return
 				}
